@@ -1,4 +1,4 @@
-import Pathrs.Proofs.Props.C02
+import Pathrs.Proofs.C02Runs
 import Pathrs.Proofs.Props.C06
 
 /-!
@@ -155,7 +155,7 @@ theorem C10_eagain_bounded (env : Env) (root : Fd) (path : Bytes) (rflags : Nat)
     {h h' : Hist} {r : Except Err Fd}
     (hr : Runs (Openat2.resolve env root path rflags nofollow) h h' r) :
     (∃ t, h' = h ++ t ∧ ((∀ x ∈ t, x.2.sane) → countO2 t ≤ 16)) ∧ r ≠ .error (.os EAGAIN) :=
-  ⟨(C02_kernel_confined env root path rflags nofollow hr).1, (C02_kernel_confined env root path rflags nofollow hr).2.2⟩
+  ⟨(kernel_confined env root path rflags nofollow hr).1, (kernel_confined env root path rflags nofollow hr).2.2⟩
 
 /-- 16 consecutive `EAGAIN`s are a safety violation: unfolding the loop 16 times against answers that
 are all `EAGAIN` (with working diagnostics) ends in `SafetyViolation` — here the base of that
